@@ -1,5 +1,7 @@
 import itertools
+import re
 from ...config import Configuration, ConfigParser
+from ...config._config_parser import _TableFormSection
 
 import sys
 
@@ -60,7 +62,7 @@ def _list_items(cp):
     items.extend(eam_dens_items)
 
   # [Table-Form:NAME] sections
-  table_form_sections = [s for s in cp.raw_config_parser.sections() if s.startswith("Table-Form:")]
+  table_form_sections = [s for s in cp.raw_config_parser.sections() if _TableFormSection.is_relevant_section(s)]
   items.extend(_parse_raw(cp, table_form_sections))
 
   orphan_sections = cp.orphan_sections
@@ -82,11 +84,14 @@ def _list_plot_item_labels(cp):
   outlist = [k for (k,v) in items]
   return outlist  
 
+# '[Table-Form:NAME]' may also be spelled '[Table-Form :NAME]'
+_table_form_item_re = re.compile(r"^(Table-Form\s*:[^:]*):(.*)$", re.DOTALL)
+
 def _split_item_key(key):
   """Split SECTION_NAME:KEY. The names of [Table-Form:NAME] sections contain a colon themselves."""
-  if key.startswith("Table-Form:") and key.count(":") >= 2:
-    prefix, name, section_key = key.split(":", 2)
-    return prefix + ":" + name, section_key
+  m = _table_form_item_re.match(key)
+  if m:
+    return m.groups()
   return key.split(":",1)
 
 def _item_value(cp, key):
